@@ -68,7 +68,7 @@ func httpShape(g *vkit.Rand) (method, path string, q *Req) {
 }
 
 func endToEnd(r *vkit.R) {
-	n := r.N(1200, 8000)
+	n := r.N(1200, 20000)
 	const K = 5
 	var stubs []*bed.Stub
 	var eps []string
